@@ -997,11 +997,18 @@ def c16_check(prop, tier, seed, replay):
         return ok, why, sum(1 for _ in open(tr)) - 1
 
     def locate(scs, tag):
-        # bisect to the first failing schedule
-        for i, ops in enumerate(scs):
-            ok, why, _ = run([ops], f"{tag}_one")
+        # bisect to a failing schedule (the schedules are independent: a reset lies between them)
+        lo, hi = 0, len(scs)
+        while hi - lo > 1:
+            mid = (lo + hi) // 2
+            ok, why, _ = run(scs[lo:mid], f"{tag}_bis")
             if not ok:
-                return ops, why
+                hi = mid
+            else:
+                lo = mid
+        ok, why, _ = run([scs[lo]], f"{tag}_one")
+        if not ok:
+            return scs[lo], why
         return scs, "only the combination fails"
 
     if replay:
